@@ -14,6 +14,9 @@ func init() {
 	sites = append(sites, []Site{
 		// ---- consensus core ----------------------------------------------------------------------
 		fact("FactsCons", "buildSetsFreshID", IL, "IndexedLachesis.Build", "topcall:e.SetID", "every Build gives the event a fresh temporary id, unconditionally"),
+		fact("FactsCons", "sampleIncrements", IL, "uniqueID.sample", "hascall:u.counter.Add", "every sample advances the counter"),
+		fact("FactsCons", "sampleFillsAllBytes", IL, "uniqueID.sample", "topcall:u.counter.FillBytes", "the counter is right-aligned in the whole 24-byte id (Model.TempId.sample)"),
+		fact("FactsCons", "sampleIncrementsBeforeFill", IL, "uniqueID.sample", "before:u.counter.Add < u.counter.FillBytes", ""),
 		fact("FactsCons", "buildDropsAlways", IL, "IndexedLachesis.Build", "topcall:p.dagIndexer.DropNotFlushed", "Build always rolls the index back (deferred)"),
 		fact("FactsCons", "buildAddsBeforeBuild", IL, "IndexedLachesis.Build", "before:p.dagIndexer.Add < p.Lachesis.Build", ""),
 		fact("FactsCons", "processDropsAlways", IL, "IndexedLachesis.Process", "topcall:p.dagIndexer.DropNotFlushed", "deferred: a no-op after Flush, a roll-back after a failure"),
